@@ -33,6 +33,8 @@ type Config struct {
 	XSync []string `json:"xsync"` // x/sync sub-packages to copy+instrument
 	// NoTime lists files whose "time" import is left real.
 	NoTime []string `json:"no_time"`
+	// NoCtx lists files whose "context" import is left real.
+	NoCtx []string `json:"no_ctx"`
 	// SortRange: file -> range expressions (source text) that are maps and must be iterated in sorted key order.
 	SortRange map[string][]string `json:"sort_range"`
 	// Watch: file -> field/identifier names; a scheduling point is put before each statement touching x.<name>.
@@ -90,6 +92,7 @@ func Generate(cfg Config) (*Overlay, error) {
 		src := filepath.Join(cfg.Repo, f)
 		opt := fileOpts{
 			time:      !in(cfg.NoTime, f),
+			noCtx:     in(cfg.NoCtx, f),
 			sortRange: cfg.SortRange[f],
 			watch:     cfg.Watch[f],
 			mapRW:     cfg.MapRW[f],
@@ -188,6 +191,7 @@ type fileOpts struct {
 	seams     map[string]string
 	extraImp  map[string]string
 	label     string
+	noCtx     bool
 }
 
 var importMap = map[string]string{
@@ -199,7 +203,7 @@ var importMap = map[string]string{
 }
 
 var defaultName = map[string]string{
-	"sync": "sync", "sync/atomic": "atomic", "time": "time",
+	"sync": "sync", "sync/atomic": "atomic", "time": "time", "context": "context",
 	"golang.org/x/sync/errgroup": "errgroup", "golang.org/x/sync/semaphore": "semaphore",
 	"golang.org/x/sync/singleflight": "singleflight",
 }
@@ -245,6 +249,9 @@ func InstrumentFile(path string, opt fileOpts) ([]byte, error) {
 		np, ok := importMap[p]
 		if p == "time" && opt.time {
 			np, ok = VrtPath+"/vtime", true
+		}
+		if p == "context" && opt.noCtx {
+			ok = false
 		}
 		if !ok {
 			continue
@@ -878,6 +885,9 @@ func (in *inst) selectStmt(s *ast.SelectStmt) ast.Stmt {
 	def := "false"
 	if hasDefault {
 		def = "true"
+	} else {
+		// keeps the switch a terminating statement where the select was one
+		clauses = append(clauses, &ast.CaseClause{List: nil, Body: []ast.Stmt{&ast.ExprStmt{X: &ast.CallExpr{Fun: ast.NewIdent("panic"), Args: []ast.Expr{strLit("vrt: select returned an impossible index")}}}}})
 	}
 	args := []ast.Expr{ast.NewIdent(def)}
 	for _, l := range lhs {
